@@ -277,6 +277,12 @@ def check_once(case, reuse=False):
     elif op == "make_complex_numpy":
         out = cplx.make_complex(a)
         cmp(out, a, 1.0, "make_complex(ndarray)", rtol=0.0)
+        if a.ndim >= 2:
+            # the same values in other memory layouts (Fortran order, a transposed view of the transposed copy, swapped axes): the logical
+            # element order is what counts
+            for name, arr in (("F-order", np.asfortranarray(a)), ("transposed view", np.ascontiguousarray(a.T).T),
+                              ("swapped-axes view", np.ascontiguousarray(np.swapaxes(a, 0, -1)).swapaxes(0, -1))):
+                cmp(cplx.make_complex(arr), a, 1.0, f"make_complex(ndarray, {name})", rtol=0.0)
     elif op in ("scalar_mult", "elementwise_mult", "scalar_mult_bcast"):
         fn = cplx.elementwise_mult if op == "elementwise_mult" else cplx.scalar_mult
         cmp(fn(ta, tb), a * b, (mx(a) + 1e-300) * (mx(b) + 1e-300) * 4, op)
